@@ -119,6 +119,17 @@ def stage_threads(chk, quick, rng, pid):
     chk.add_tlc("MC_SendPath, two threads under the per-connection lock: every interleaving and chunking", r, constants=str(c))
     if r.violated:
         return machinery_failure(pid, "SendPath with the lock violates %s" % r.violated)
+    cl = {k: v for k, v in c.items() if k != "EmitHist"}
+    rlv = tracecheck.model("SendPath", "FairSpec", cl, workers=1, timeout=900, properties=["L_EverythingQueuedIsEventuallyWritten"])
+    tlc.require_clean(rlv, "SendPath liveness")
+    chk.add_tlc("SendPath liveness under weak fairness: everything queued is eventually written (with the lock)", rlv, constants=str(cl))
+    if rlv.violated:
+        return machinery_failure(pid, "SendPath (locked) violates liveness: %s" % rlv.violated)
+    rlw = tracecheck.model("SendPath", "FairSpec", dict(cl, Locked=False, Lens=[1, 1], NetFrames=[1], MinerFrames=[2]), workers=1, timeout=900,
+                           properties=["L_EverythingQueuedIsEventuallyWritten"])
+    chk.add_tlc("SendPath liveness witness run without the lock (a stalled connection never writes what is pending)", rlw, expect_violation="<temporal>")
+    if not rlw.violated:
+        return machinery_failure(pid, "vacuity: SendPath without the lock satisfies the liveness property")
     rw = tracecheck.model("MC_SendPath", "MSpec", dict(c, Locked=False), workers=4, timeout=600, view="View", invariants=["I_StreamIsQueuedFrames", "I_NoStall", "I_NoCrash"])
     chk.add_tlc("SendPath witness run (F-C12c): without the lock a frame is lost, torn, or left pending without write interest", rw,
                 expect_violation="I_StreamIsQueuedFrames | I_NoStall | I_NoCrash")
